@@ -75,6 +75,7 @@ def script_for(execs):
         lines.append("note exec%d" % xi)
         srcs, imports = sg.sources(x["rules"], x.get("extra_imports", ()))
         x["imports"] = imports
+        lines.append("opt freshit 0")
         for o in x.get("pre_opts", ()):
             lines.append(o)
         lines.append("compiler 0")
@@ -424,7 +425,8 @@ def c13(res, tier, seed):
         for extra in range(3):
             k = ncalls + r.randint(0, 2 * len(sizes) + 2)
             scans.append(scan(f, data, sizes, mode="blocks", nr=[k]))
-        execs.append({"rules": rules, "scans": scans, "kind": "c13-notready-subsets"})
+        # every other execution repeats the call with a NEW iterator structure for the same source (a wrapper that builds it per call)
+        execs.append({"rules": rules, "scans": scans, "kind": "c13-notready-subsets", "pre_opts": ["opt freshit %d" % (si % 2)]})
     # (2) entry-point matrix: same bytes through every entry point; empty and page-aligned buffers
     for si in range(8 if tier == "quick" else 60):
         rules = random_ruleset(r, r.randint(2, 6) if si % 2 else r.randint(10, 20), 2 if si % 2 else r.randint(2, 10), 2, ["M", "NM", "Cnt", "FS", "U8", "T", "Mod", "EP", "EPV", "PeSec"])
